@@ -33,7 +33,9 @@ impl<'r> G<'r> {
     fn include_stmt(&mut self, k: usize) {
         // include "incK.td" (or a sub-directory); the included file gets its own top-level statements
         let sub = self.rng.chance(1, 3);
-        let rel = if sub { format!("sub/inc{}.td", k) } else { format!("inc{}.td", k) };
+        // (with non-ASCII text enabled, also file names outside ASCII: the link's range then covers wide characters)
+        let stem = if self.cfg.non_ascii && self.rng.chance(1, 2) { ["gr\u{fc}\u{df}e", "\u{5b9a}\u{7fa9}", "inc\u{1d11e}"][self.rng.below(3)] } else { "inc" };
+        let rel = if sub { format!("sub/{}{}.td", stem, k) } else { format!("{}{}.td", stem, k) };
         let from_dir = {
             let p = &self.files[self.cur].path;
             p.rsplitn(2, '/').nth(1).unwrap_or("").to_string()
